@@ -30,7 +30,7 @@ ASSUMPTIONS = [
     "lone surrogates are not generated",
 ]
 VERSIONS = ["2.0", "2.1"]
-from .c02 import TYPES, cls_for  # noqa: E402
+from .c02 import BASES, TYPES, cls_for, make_base  # noqa: E402
 
 
 class CaseTimeout(BaseException):
@@ -119,10 +119,10 @@ def check_state(ctx, reg0, witness):
 
 
 def wl_faults(ctx, rng, i):
-    ver, t = TYPES[i % len(TYPES)]
-    rnd = i // len(TYPES)
+    ver, bname = BASES[i % len(BASES)]
+    rnd = i // len(BASES)
     g = ObjGen(rng, ver, hostile=False, ts_max_digits=6, openvocab_custom=False)
-    o = g.make(t, "max" if rnd % 2 == 0 else "random", granular=False)
+    t, o = make_base(g, ver, bname, "max" if rnd % 2 == 0 else "random", granular=False)
     if validator.validate(o, ver):
         ctx.skip("generator error")
         return
@@ -320,7 +320,7 @@ def wl_targeted(ctx, rng, i):
 
 
 WORKLOADS = [
-    Workload("faults", wl_faults, quick=lambda: len(TYPES), thorough=lambda: len(TYPES) * 6, exhaustive=True),
+    Workload("faults", wl_faults, quick=lambda: len(BASES), thorough=lambda: len(BASES) * 6, exhaustive=True),
     Workload("junk", wl_junk, quick=120, thorough=6000),
     Workload("targeted", wl_targeted, quick=lambda: len(TARGETED), thorough=lambda: len(TARGETED), exhaustive=True),
 ]
